@@ -104,6 +104,58 @@ func corrProbe(r *Rng, which string) (line, got string) {
 			got = "fault"
 		}
 		return fmt.Sprintf("model mink %d %d %s %s", b2i(isSum), b2i(closed), pathStr(pat), pathStr(path)), got
+	case "windc", "windx":
+		fr := r.Intn(4)
+		edge := func() clip.VEdge {
+			e := clip.VEdge{WindDx: 1 - 2*r.Intn(2), PolyType: clip.PathType(r.Intn(2))}
+			if e.PolyType == clip.Subject && r.Chance(0.2) {
+				e.IsOpen = true
+			}
+			return e
+		}
+		show := func(es ...clip.VEdge) string {
+			var sb strings.Builder
+			for _, e := range es {
+				fmt.Fprintf(&sb, " %d %d %d %d %d", e.WindDx, e.WindCount, e.WindCount2, int(e.PolyType), b2i(e.IsOpen))
+			}
+			return sb.String()
+		}
+		// a list whose counts were produced by the real insertion, left to right (consistent
+		// state), or arbitrary counts in -3..3 (the model is a transcription: it must agree there too)
+		n := r.Range(0, 5)
+		var left []clip.VEdge
+		consistent := r.Chance(0.6)
+		for k := 0; k < n; k++ {
+			e := edge()
+			if consistent {
+				e.WindCount, e.WindCount2 = clip.VSetWindCount(clip.FillRule(fr), left, e)
+			} else {
+				e.WindCount, e.WindCount2 = r.Range(-3, 3), r.Range(-3, 3)
+			}
+			left = append(left, e)
+		}
+		if which == "windc" {
+			e := edge()
+			wc, wc2 := clip.VSetWindCount(clip.FillRule(fr), left, e)
+			return fmt.Sprintf("model windc %d%s%s", fr, show(left...), show(e)), fmt.Sprintf("%d %d", wc, wc2)
+		}
+		e1, e2 := edge(), edge()
+		e1.IsOpen, e2.IsOpen = false, false
+		if consistent {
+			e1.WindCount, e1.WindCount2 = clip.VSetWindCount(clip.FillRule(fr), left, e1)
+			e2.WindCount, e2.WindCount2 = clip.VSetWindCount(clip.FillRule(fr), append(append([]clip.VEdge{}, left...), e1), e2)
+		} else {
+			e1.WindCount, e1.WindCount2, e2.WindCount, e2.WindCount2 = r.Range(-3, 3), r.Range(-3, 3), r.Range(-3, 3), r.Range(-3, 3)
+		}
+		ct := clip.ClipType(r.Range(1, 4))
+		got := ""
+		if f := safeCall(func() {
+			a, b, c, d := clip.VIntersectWind(ct, clip.FillRule(fr), e1, e2)
+			got = fmt.Sprintf("%d %d %d %d", a, b, c, d)
+		}); f != "" {
+			got = "fault"
+		}
+		return fmt.Sprintf("model windx %d%s", fr, show(e1, e2)), got
 	case "triSign":
 		x := []int64{0, 1, -1, 2, -2, 1 << 40, -(1 << 40), math.MaxInt64, math.MinInt64}[r.Intn(9)]
 		return fmt.Sprintf("gen triSign %d", x), fmt.Sprint(clip.VTriSign(x))
@@ -257,5 +309,6 @@ func corrStage(name string, probes []string, quick, thorough int, rule string) {
 
 func init() {
 	corrStage("gen-corr", genProbes, 56000, 2800000, "translator validation: every generated function (Gen.*) is evaluated by the Lean oracle on operand-value inputs and compared with the real function called in-process (sign only for float64 cross / dot products, bit patterns for Area64 and PerpendicDistFromLineSqr64); non-trivial = any probe with a non-empty argument list")
+	corrStage("wind-corr", []string{"windc", "windx", "windc"}, 45000, 2000000, "correspondence of the winding-count bookkeeping model (Model.Wind) with the real setWindCountForClosedPathEdge / setWindCountForOpenPathEdge / intersectEdges run on synthetic active-edge lists (verif hook): 0-5 edges left of the new edge, subject / clip / open edges, all four fill rules, counts either produced by the real insertion (consistent states) or arbitrary in -3..3; resulting counts compared exactly")
 	corrStage("models-corr", modelProbes, 50000, 2500000, "function-level correspondence of the hand models (TrimCollinear64, SimplifyPath64, PointInPolygon, StripDuplicates, minkowskiInternal): random paths of 0-8 vertices on 2-4 wide grids (forcing duplicates, collinear runs, wrap-around cases) at three magnitudes; outputs compared exactly")
 }
